@@ -3,7 +3,7 @@
 //! outside the target changes.  Fonts: built by recipe, loaded and edited, loaded from crafted
 //! UFOs whose contents.plist / layercontents.plist hold unusual paths.
 use crate::c08::common::*;
-use crate::c08::{fresh_sandbox, make_prior, modify, prepare_loaded, run_save, Prepared, Prior, PRIORS};
+use crate::c08::{fresh_sandbox, make_prior, modify, prepare_loaded, prior_for, run_save, Prepared, Prior};
 use crate::util::*;
 use norad::{DataRequest, Font};
 use std::collections::BTreeSet;
@@ -46,7 +46,8 @@ pub fn write_crafted(sb: &Path, variant: u64, r: &mut Rng) -> (String, bool) {
     let desc;
     match variant {
         0 => {
-            // the witness of F8: a glif path that climbs out of the layer directory and the UFO
+            // the former witness of F8 (fixed by 59e280a): a glif path that climbs out of the
+            // layer directory and the UFO; must be refused at load now
             contents.push(("evil".into(), "../../outside.glif".into()));
             std::fs::write(sb.join("outside.glif"), glif("evil", 1)).unwrap();
             desc = "glif path ../../outside.glif";
@@ -164,7 +165,8 @@ pub fn prepare_crafted(sb: &Path, variant: u64, r: &mut Rng) -> Option<Prepared>
     })
 }
 
-/// the classes of the known findings, on the real font
+/// some layer directory or glif path of the font is not a single plain component (the class of
+/// the former finding F8; no font can get there any more: load refuses such paths)
 pub fn class_f8(f: &Font) -> bool {
     f.layers.iter().any(|l| {
         !single_normal(l.path())
@@ -229,6 +231,7 @@ pub fn case(seed: u64, idx: u64, out: &Path, verbose: bool, force_variant: Optio
         }
     };
     let mut variant = 99;
+    let mut crafted_loaded = false;
     let mut p = match kind {
         0 => {
             let rc = Recipe::random_valid(&mut r);
@@ -243,7 +246,10 @@ pub fn case(seed: u64, idx: u64, out: &Path, verbose: bool, force_variant: Optio
         _ => {
             variant = force_variant.unwrap_or_else(|| idx % N_CRAFTED);
             match prepare_crafted(&sb, variant, &mut r) {
-                Some(p) => p,
+                Some(p) => {
+                    crafted_loaded = true;
+                    p
+                }
                 None => {
                     // the crafted source does not load: nothing to save, an uninteresting case
                     let (font, shadow) = build_font(&Recipe::plain());
@@ -256,7 +262,7 @@ pub fn case(seed: u64, idx: u64, out: &Path, verbose: bool, force_variant: Optio
         modify(&mut p, &mut r);
     }
     let in_place = p.loaded_from.is_some() && r.chance(1, 3);
-    let prior = if in_place { Prior::Absent } else { PRIORS[((idx / 3) % 6) as usize] };
+    let prior = if in_place { Prior::Absent } else { prior_for(idx / 3) };
     let target_rel: Vec<String> = if in_place { split_rel("src.ufo") } else { split_rel("zone/t.ufo") };
     if !in_place {
         make_prior(&sb.join(target_rel.join("/")), prior, &mut r);
@@ -281,7 +287,13 @@ pub fn case(seed: u64, idx: u64, out: &Path, verbose: bool, force_variant: Optio
         let got = subtree(&run.after, &troot);
         let want = subtree(&run.reftree, &troot);
         if got != want {
-            fail_tree.push(format!("target differs from a save to a fresh path: {}", snap_diff(&want, &got).join(", ")));
+            let stale: Vec<&String> = got.keys().filter(|k| !want.contains_key(*k)).collect();
+            let missing: Vec<&String> = want.keys().filter(|k| !got.contains_key(*k)).collect();
+            let changed: Vec<&String> = want.iter().filter(|(k, v)| got.get(*k).map(|g| g != *v).unwrap_or(false)).map(|(k, _)| k).collect();
+            fail_tree.push(format!(
+                "target differs from a save of the same font to a fresh path: remains of the previous contents / unexpected entries {:?}; missing {:?}; different bytes {:?}",
+                stale, missing, changed
+            ));
         }
         let f = &p.font;
         let is_file = |rel: &str| matches!(got.get(rel), Some(Some(_)));
@@ -313,10 +325,11 @@ pub fn case(seed: u64, idx: u64, out: &Path, verbose: bool, force_variant: Optio
     let mut json = String::new();
     let _ = write!(
         json,
-        "{{\"i\":{},\"kind\":{},\"variant\":{},\"prior\":{},\"in_place\":{},\"obs\":{},\"ref_ok\":{},\"fail_tree\":{},\"fail_frame\":{},\"fail_opt\":{},\"class_f8\":{},\"class_reserved\":{},\"notes\":{},\"files\":{}}}",
+        "{{\"i\":{},\"kind\":{},\"variant\":{},\"crafted_loaded\":{},\"prior\":{},\"in_place\":{},\"obs\":{},\"ref_ok\":{},\"fail_tree\":{},\"fail_frame\":{},\"fail_opt\":{},\"class_f8\":{},\"class_reserved\":{},\"notes\":{},\"files\":{}}}",
         idx,
         kind,
         variant,
+        crafted_loaded,
         json_str(&format!("{:?}", prior)),
         in_place,
         json_str(&run.obs.1),
